@@ -743,6 +743,21 @@ func sortSets(k string, g interface{}, top bool) interface{} {
 		}
 		if top && (k == "list" || k == "fetch" || k == "caps") {
 			sortArr(x)
+			// align the elements of both sides by their key (mailbox name / sequence number)
+			key := func(v interface{}) string {
+				m, ok := v.(map[string]interface{})
+				if !ok {
+					return ""
+				}
+				if k == "fetch" {
+					return fmt.Sprintf("%020s", jstr(m["seq"]))
+				}
+				if mb, ok := m["mbox"].(map[string]interface{}); ok {
+					return jstr(mb["l"]) + jstr(mb["s"])
+				}
+				return ""
+			}
+			sort.SliceStable(x, func(i, j int) bool { return key(x[i]) < key(x[j]) })
 		}
 	}
 	return g
